@@ -119,25 +119,24 @@ def parseItem : SExp → Option Item
 
 /-- The known-finding class of an input with overlaps, chosen by the conjunct that failed. The classes of the
     sequential model are read on every element (an overlap meets a class if either of its requests does in the
-    state in which the pair arrives); two classes are about overlaps as such. -/
+    state in which the pair arrives). Judged with the model of the code as it is: the two classes that were about
+    overlaps as such are repaired — a crash while a KILL overlaps a START / a trigger, or a second terminal status
+    after two overlapping KILLs, has no excuse and is a plain violation. What is left of KILL ∥ (request that starts
+    a child) is a face of the open finding `basic_kill_spares_child`: Kill neither signals a child nor keeps the
+    request in flight from starting one, so the child can outlive (and report after) the terminal status. -/
 def hypOfI (k : Kind) (b : Beh) (items : List Item) (o : IObs) : String :=
   let nv (P : St → Op → Bool) : Bool := !neverI codeCfg (liftReq P) k b items
   let nvp (Q : St → Op → Op → Bool) : Bool := !neverI codeCfg (liftPair Q) k b items
   let (ops, fo) := o.flat items
   if !noStuck fo.res then
-    if nvp overlapKillSpawn then "kill_overlaps_start_panics"
-    else if nv killNoRpc then "kill_unready_ctl_panics"
+    if nv killNoRpc then "kill_unready_ctl_panics"
     else "-"
-  else if !oneTerminal fo.emits then
-    if nvp overlapKillKill then "overlapping_kills_two_terminals"
-    else "-"
+  else if !oneTerminal fo.emits then "-"
   else if !nothingAfter fo.emits then
-    if nv killLive then "basic_kill_spares_child"
-    else if nvp overlapKillSpawn then "kill_overlaps_start_panics"
+    if nv killLive || nvp overlapKillSpawn then "basic_kill_spares_child"
     else "-"
   else if !noSurvivors ops fo then
-    if nv killLive then "basic_kill_spares_child"
-    else if nvp overlapKillSpawn then "kill_overlaps_start_panics"
+    if nv killLive || nvp overlapKillSpawn then "basic_kill_spares_child"
     else if nv killHelpers then "ctl_kill_spares_helpers"
     else "-"
   else if !stopTerminates k ops fo then
